@@ -15,7 +15,6 @@ Domains (gens/jsongen.py, all Hypothesis-generated inside the workers, seeded pe
 Oracle: oracles/jsonref.py.  Strings are compared as UTF-16 code-unit sequences.
 """
 import collections
-import json
 import math
 import os
 
@@ -208,6 +207,14 @@ def diffclass(exp, got):
     return "value"
 
 
+def _unordered(t):
+    if t[0] == "a":
+        return ["a", [_unordered(x) for x in t[1]]]
+    if t[0] == "o":
+        return ["o", sorted([k, _unordered(x)] for k, x in t[1])]
+    return t
+
+
 def textdiff(exp, got):
     """Coarse label of the first difference of two JSON texts."""
     if not isinstance(got, str) or not isinstance(exp, str):
@@ -215,7 +222,7 @@ def textdiff(exp, got):
     exp, got = J.norm_str(exp), J.norm_str(got)
     if len(exp) == len(got) and sorted(exp) == sorted(got):
         try:  # same members in another order?
-            if J.typed(J.parse(exp)) == J.typed(J.parse(got)):
+            if _unordered(J.typed(J.parse(exp))) == _unordered(J.typed(J.parse(got))):
                 return "key-order"
         except (J.JSONSyntaxError, RecursionError):
             pass
@@ -902,8 +909,6 @@ def shard_miss(task):
 def shard_script(task):
     _, shard, n, seed, guards = task
     acc = _Acc()
-    import hypothesis.strategies as st
-
     strat = G.script_domain_cases()
     cases = [normalise_script_links(c) for c in _collect(strat, n, seed)]
     kept = []
